@@ -45,6 +45,14 @@ type c20ReqCase struct {
 	Host   string   `json:"host"`
 	Port   string   `json:"port,omitempty"`
 	Hops   []c20Hop `json:"hops,omitempty"`
+	// Life is the life-cycle of the client relative to the package's strict-mode switch: on the assembled node the HTTP
+	// engine sets client.StrictMode in its Configure and is registered LAST, so the engines that build their long-lived
+	// clients in their own Configure (discovery, VCR, ...) build them BEFORE the switch is set.
+	//   set-then-build: StrictMode = Strict, then construct (what unit tests do)
+	//   build-then-set: construct while StrictMode == !Strict, then StrictMode = Strict (what the node does)
+	//   flip-flop:      StrictMode = Strict, construct, StrictMode = !Strict, StrictMode = Strict
+	// In all three the mode at the time of Do() is Strict, and that is what decides.
+	Life string `json:"life,omitempty"`
 }
 
 func c20GenReq(t *rapid.T) c20ReqCase {
@@ -56,6 +64,7 @@ func c20GenReq(t *rapid.T) c20ReqCase {
 		Host:   rapid.SampledFrom([]string{"peer.verif-remote.nl", "as.verif-remote.nl", "192.0.2.9", "localhost"}).Draw(t, "host"),
 		Port:   rapid.SampledFrom([]string{"", "", "8443", "80", "443"}).Draw(t, "port"),
 	}
+	c.Life = rapid.SampledFrom([]string{"set-then-build", "build-then-set", "build-then-set", "flip-flop"}).Draw(t, "life")
 	n := rapid.SampledFrom([]int{0, 0, 1, 1, 2, 3}).Draw(t, "nhops")
 	for i := 0; i < n; i++ {
 		c.Hops = append(c.Hops, c20Hop{
@@ -179,7 +188,13 @@ func c20RunReq(x *h.Ctx, c c20ReqCase) {
 	// install the fake network
 	savedSafe, savedCaching, savedStrict := SafeHttpTransport, DefaultCachingTransport, StrictMode
 	tr := &http.Transport{DialContext: nw.dialer("plain"), DialTLSContext: nw.dialer("tls"), DisableKeepAlives: true}
-	SafeHttpTransport, DefaultCachingTransport, StrictMode = tr, tr, c.Strict
+	SafeHttpTransport, DefaultCachingTransport = tr, tr
+	switch c.Life {
+	case "build-then-set":
+		StrictMode = !c.Strict
+	default:
+		StrictMode = c.Strict
+	}
 	defer func() {
 		SafeHttpTransport, DefaultCachingTransport, StrictMode = savedSafe, savedCaching, savedStrict
 		tr.CloseIdleConnections()
@@ -194,6 +209,13 @@ func c20RunReq(x *h.Ctx, c c20ReqCase) {
 		cl = NewWithTLSConfig(5*time.Second, &tls.Config{MinVersion: tls.VersionTLS12})
 	default:
 		cl = New(5 * time.Second)
+	}
+	switch c.Life {
+	case "build-then-set":
+		StrictMode = c.Strict
+	case "flip-flop":
+		StrictMode = !c.Strict
+		StrictMode = c.Strict
 	}
 	var body io.Reader
 	if c.Method == "POST" || c.Method == "PUT" {
@@ -224,7 +246,11 @@ func c20RunReq(x *h.Ctx, c c20ReqCase) {
 		mode = "strict"
 	}
 	x.Classf("%s:%s:hops=%d:httphop=%v", mode, lower, len(c.Hops), httpHop)
-	x.Classf("ctor:%s", c.Ctor)
+	life := c.Life
+	if life == "" {
+		life = "set-then-build"
+	}
+	x.Classf("ctor:%s:%s:%s", c.Ctor, life, mode)
 
 	if c.Strict {
 		switch {
